@@ -4,6 +4,7 @@ import (
 	"bytes"
 	"encoding/binary"
 	"fmt"
+	"sort"
 	"strconv"
 	"strings"
 	"time"
@@ -491,7 +492,13 @@ func c06After(rc *RunCtx, res *simrt.Result) {
 	}
 	rc.OutcomeHash = h
 	// O3 at-most-once
-	for id, fs := range received {
+	var recvIDs []int
+	for id := range received {
+		recvIDs = append(recvIDs, id)
+	}
+	sort.Ints(recvIDs)
+	for _, id := range recvIDs {
+		fs := received[id]
 		if len(fs) > 1 {
 			viol("O3-duplicate", fmt.Sprintf("pack id %d arrived in %d complete frames", id, len(fs)))
 		}
